@@ -1440,10 +1440,10 @@ fn main() {
     // ones with a variable part) start with the narrow server->client pipes.
     // A full product would multiply the space by six.
     // The 1-octet pipes cost about three times as much per execution as the
-    // others and are left to the thorough tier.
+    // others and are left to the thorough tier, versions 1 and 2.
     use Transport::*;
     let rot: [Vec<Transport>; 3] = if thorough { [
-        vec![Roomy, C7, S16, S1C1, S7, S12],
+        vec![Roomy, C7, S16, S7, S12],            // version 0 carries fixed-size PDUs only
         vec![S16, S1C1, S7, S12, Roomy, C7],
         vec![S12, S16, S1C1, S7, Roomy, C7],
     ] } else { [
